@@ -569,10 +569,10 @@ def run(ctx):
     # simulated derivations of the large bound
     cfg = os.path.join(ctx.work, "lineage_sim.cfg")
     gen_cfg(cfg, {**base, "MaxDefs": 4, "MaxFrom": 2, "MaxProj": 3, "MaxRefs": 2, "Sample": "TRUE"}, "SPECIFICATION Spec\nINVARIANT GraphAgrees\nINVARIANT LeavesAreBase\nINVARIANT NamesDistinct\nINVARIANT UnionPositional\nINVARIANT MemoAgrees\nACTION_CONSTRAINT Emit\nCHECK_DEADLOCK FALSE\n")
-    # eight fixed simulation seeds, one worker each (deterministic); thorough runs all, quick a prefix of the one chosen by the seed
+    # three fixed simulation seeds, one worker each (deterministic); thorough runs all, quick a prefix of the one chosen by the seed
     n0 = len(dags)
-    for r in (range(8) if ctx.thorough else [ctx.seed % 8]):
-        num = 2500 if ctx.thorough else 700
+    for r in (range(3) if ctx.thorough else [ctx.seed % 3]):
+        num = 1500 if ctx.thorough else 700
         res = tlc.run("LineageWalk", cfg, ctx.work, workers=1, timeout_s=1800, simulate=f"num={num}", depth=24, seed=1001 + r, allow_violation=False)
         ctx.model(res, "LineageWalk", cfg, f"simulation (seed {1001 + r}): {num} derivations of up to 4 definitions; the four invariants plus MemoAgrees (memoised to_node graph = Out) on every visited state")
         for p in res.printed:
